@@ -1,4 +1,4 @@
-(* glue for Ledger/Bulk.v instantiated with Core.step:
+(* printers for Ledger/Bulk.v instantiated with Core.step (used by importrun.ml; the bulk tie is in xbulkrun.ml). Former case format:
    (bulk <feat> (<prep: now op> ...) <now> <atomic> <cont> <parallel> (<perm> ...) (<element: now op> ...))
    -> (bulk (results (<entry> ...)) <state>)   entries = the JSON response as writeJSONResponse builds it *)
 open Sexp
@@ -18,20 +18,4 @@ let entry_sx (tag, r) =
   | M.BRes None -> L [A "panic"]
   | M.BCancelled -> L [A "err"; A "cancelled"; rt]
 
-let () = register "bulk" (function
-  | L [A "bulk"; feat; L prep; now; atomic; cont; parallel; L perm; L els] ->
-    let f = features_of feat in
-    let s0 = List.fold_left (fun s st -> match st with
-        | L [n; op] -> (match M.step f (zarg n) s (op_of op) with M.SR (s', _) -> s' | M.SPanic -> s)
-        | _ -> failwith "bad prep") M.init_state prep in
-    let es = List.map (function L [_; op] -> op_of op | _ -> failwith "bad element") els in
-    let actions = List.map action_of es in
-    (* results tagged with ElementID, in completion order *)
-    let (s', tagged) =
-      if bool_of parallel then
-        let sched = List.map (fun i -> (nat_of_int (int_of_string (atom i)), false)) perm in
-        let ((s', tagged), _) = M.core_sched f (zarg now) (bool_of cont) s0 es sched in
-        (s', tagged)
-      else let (s', rs) = M.core_bulk f (zarg now) (bool_of atomic) (bool_of cont) s0 es in (s', M.tag_seq rs) in
-    L [A "bulk"; L [A "results"; L (List.map entry_sx (M.respond M.bres_ok actions tagged))]; state_sx s']
-  | _ -> failwith "bad bulk case")
+(* the "bulk" command itself lives in xbulkrun.ml (schema-aware executor); these printers are shared with importrun.ml *)
